@@ -20,6 +20,8 @@ func init() {
 	libModels = map[string]modelFn{
 		"strings.Cut":        modelCut,
 		"bytes.Equal":        modelBytesEqual,
+		"cmp.Compare":        modelCmpCompare,
+		"slices.SortStableFunc": modelSortStableFunc,
 		"github.com/prometheus/common/model.EscapeName": modelEscapeName,
 		"strings.TrimLeft":   modelTrimLeft,
 		"strings.TrimRight":  modelTrimRight,
@@ -56,7 +58,7 @@ func init() {
 		"math.Frexp":                     modelFrexp,
 		"sort.SearchFloat64s":            modelSearchFloat64s,
 		"slices.Clone":                   modelSlicesClone,
-		"time.Now":                       modelHavocPure,
+		"time.Now":                       modelTimeNow,
 		"time.Since":                     modelTimeSince,
 		"(time.Time).IsZero":             modelTimeIsZero,
 		"(time.Time).UnixNano":           modelOpaque1("time.UnixNano"),
@@ -595,8 +597,51 @@ func modelSlicesClone(f *Frame, st *State, cc *ssa.CallCommon, args []Val, rt ty
 	return Val{T: rt, S: e.define("clone", "Slice", sIte(fmt.Sprintf("(= (s.arr %s) 0)", s), "(mk-slice 0 0 0 0)", fmt.Sprintf("(mk-slice %s 0 (s.len %s) %s)", arr, s, cp)))}
 }
 
+// ---- wall clock: a ghost monotone clock. Every call whose duration is unknown (function values, interface methods,
+// unmodelled callees, channel operations, time.Now/Since themselves) advances it by an arbitrary non-negative amount.
+func (e *Engine) clockNow(st *State) string {
+	e.ghostDecl["lib.clock"] = "Int"
+	c, _ := e.getGhost(st, "lib.clock")
+	return c
+}
+
+func (e *Engine) tick(st *State) {
+	if st == nil {
+		return
+	}
+	c := e.clockNow(st)
+	n := e.freshConst("clock", "Int")
+	e.assume("true", fmt.Sprintf("(>= %s %s)", n, c))
+	st.ghost["lib.clock"] = n
+}
+
+func (e *Engine) timeUnix(t Val) string {
+	e.sc.Decl("fun:time.unixns", fmt.Sprintf("(declare-fun lib.time.clockOf (%s) Int)", e.valSort(t)))
+	return fmt.Sprintf("(lib.time.clockOf %s)", t.S)
+}
+
+// time.Now: "returns the current local time" - the ghost clock after an arbitrary advance.
+func modelTimeNow(f *Frame, st *State, cc *ssa.CallCommon, args []Val, rt types.Type, pos token.Pos) Val {
+	e := f.e
+	e.tick(st)
+	v := e.havocVal(rt, "now", st)
+	e.assume("true", fmt.Sprintf("(= %s %s)", e.timeUnix(v), e.clockNow(st)))
+	e.assumed["time.Now/time.Since read a monotone non-decreasing clock"] = true
+	return v
+}
+
+// time.Since(t): "returns the time elapsed since t" = now - t on the monotone clock.
 func modelTimeSince(f *Frame, st *State, cc *ssa.CallCommon, args []Val, rt types.Type, pos token.Pos) Val {
-	return f.e.havocVal(rt, "since", st)
+	e := f.e
+	e.tick(st)
+	e.assumed["time.Now/time.Since read a monotone non-decreasing clock"] = true
+	term := fmt.Sprintf("(- %s %s)", e.clockNow(st), e.timeUnix(args[0]))
+	if e.mode == "bv" {
+		return e.havocVal(rt, "since", st)
+	}
+	v := Val{T: rt, S: e.define("since", "Int", term)}
+	e.assumeTyping(st, v)
+	return v
 }
 
 func modelTimeIsZero(f *Frame, st *State, cc *ssa.CallCommon, args []Val, rt types.Type, pos token.Pos) Val {
@@ -680,4 +725,79 @@ func modelEscapeName(f *Frame, st *State, cc *ssa.CallCommon, args []Val, rt typ
 	v := e.havocVal(rt, "escaped", st)
 	e.assume("true", fmt.Sprintf("(=> (>= (slen %s) 1) (>= (slen %s) 1))", args[0].S, v.S))
 	return v
+}
+
+// cmp.Compare(x, y): "-1 if x is less than y, 0 if x equals y, +1 if x is greater than y" (strings and integers).
+func modelCmpCompare(f *Frame, st *State, cc *ssa.CallCommon, args []Val, rt types.Type, pos token.Pos) Val {
+	e := f.e
+	lt := e.binop(f, st, token.LSS, args[0], args[1], types.Typ[types.Bool], pos)
+	eq := e.binop(f, st, token.EQL, args[0], args[1], types.Typ[types.Bool], pos)
+	b, _ := isInt(rt)
+	return Val{T: rt, S: e.define("cmp", e.sortOf(rt), sIte(lt.S, e.intLit(b, "-1"), sIte(eq.S, e.intLit(b, "0"), e.intLit(b, "1"))))}
+}
+
+// slices.SortStableFunc(x, cmp): "sorts the slice x while keeping the original order of equal elements, using cmp to compare
+// elements". Model: afterwards cmp(x[p], x[q]) <= 0 for all p < q, and the new contents are a stable rearrangement given by a
+// witness bijection src (new position -> old position) that is increasing on cmp-equal elements. The comparator must be a
+// closure with a pure contract (its ensures is assumed for all arguments, it is proved on the closure itself).
+func modelSortStableFunc(f *Frame, st *State, cc *ssa.CallCommon, args []Val, rt types.Type, pos token.Pos) Val {
+	e := f.e
+	x, cmpv := args[0], args[1]
+	sl := x.T.Underlying().(*types.Slice)
+	srt := e.sortOf(sl.Elem())
+	h := e.getHeapA(st, srt)
+	if cmpv.Fn == nil {
+		e.note("slices.SortStableFunc with an unknown comparator: slice contents havocked")
+		e.havocLoc(st, modLoc{kind: "elems", base: "(s.arr " + x.S + ")", rootT: sl.Elem(), slice: x.S})
+		return Val{T: rt}
+	}
+	c := e.P.ContractFor(cmpv.Fn.Fn)
+	if c == nil || !c.Pure {
+		e.note("slices.SortStableFunc: comparator %s has no pure contract: slice contents havocked", funcKey(cmpv.Fn.Fn))
+		e.havocLoc(st, modLoc{kind: "elems", base: "(s.arr " + x.S + ")", rootT: sl.Elem(), slice: x.S})
+		return Val{T: rt}
+	}
+	e.usedContracts[c.Pkg+"."+c.Key] = true
+	xs := e.nameConst("sort.x", "Slice", x.S)
+	na := e.freshConst("sorted", "(Array Int "+srt+")")
+	src := e.freshConst("sort.src", "(Array Int Int)")
+	old := e.nameConst("sort.old", "(Array Int "+srt+")", fmt.Sprintf("(select %s (s.arr %s))", h, xs))
+	lo := "(s.off " + xs + ")"
+	hi := "(+ (s.off " + xs + ") (s.len " + xs + "))"
+	it := types.Typ[types.Int]
+	app := func(a, b string) string {
+		v, _ := e.pureApply(c, 0, it, []Val{{T: sl.Elem(), S: a}, {T: sl.Elem(), S: b}})
+		return v.S
+	}
+	// comparator facts for all arguments (its proved postcondition)
+	qa, qb := e.fresh("q.a"), e.fresh("q.b")
+	ctx := &EvalCtx{st: st, old: st, binds: map[string]Val{}, results: []Val{{T: it, S: app(qa, qb)}}, resNames: c.ResultNames}
+	ctx.pkg = funcTypesPkg(cmpv.Fn.Fn)
+	ctx.cf = e.P.Contracts[funcPkgPath(cmpv.Fn.Fn)]
+	ctx.paramVals = map[string]Val{}
+	for i, p := range cmpv.Fn.Fn.Params {
+		v := Val{T: p.Type(), S: []string{qa, qb}[i%2]}
+		ctx.paramVals[p.Name()] = v
+		if i < len(c.ParamNames) {
+			ctx.paramVals[c.ParamNames[i]] = v
+		}
+	}
+	var facts []string
+	for _, en := range c.Ensures {
+		if g, err := e.evalBool(ctx, en.E); err == nil {
+			facts = append(facts, g)
+		}
+	}
+	if len(facts) > 0 {
+		e.sc.Line(fmt.Sprintf("(assert (forall ((%s %s) (%s %s)) (! %s :pattern (%s))))", qa, srt, qb, srt, sAnd(facts...), app(qa, qb)))
+	}
+	// outside the slice nothing changes; inside: sorted, and a stable permutation of the old contents
+	e.assume("true", fmt.Sprintf("(forall ((q.i Int)) (! (=> (or (< q.i %s) (>= q.i %s)) (= (select %s q.i) (select %s q.i))) :pattern ((select %s q.i))))", lo, hi, na, old, na))
+	e.assume("true", fmt.Sprintf("(forall ((q.p Int) (q.q Int)) (! (=> (and (<= %s q.p) (< q.p q.q) (< q.q %s)) (<= %s 0)) :pattern ((select %s q.p) (select %s q.q))))", lo, hi, app("(select "+na+" q.p)", "(select "+na+" q.q)"), na, na))
+	e.assume("true", fmt.Sprintf("(forall ((q.p Int)) (! (=> (and (<= %s q.p) (< q.p %s)) (and (<= %s (select %s q.p)) (< (select %s q.p) %s) (= (select %s q.p) (select %s (select %s q.p))))) :pattern ((select %s q.p))))", lo, hi, lo, src, src, hi, na, old, src, na))
+	e.assume("true", fmt.Sprintf("(forall ((q.p Int) (q.q Int)) (! (=> (and (<= %s q.p) (< q.p q.q) (< q.q %s)) (not (= (select %s q.p) (select %s q.q)))) :pattern ((select %s q.p) (select %s q.q))))", lo, hi, src, src, src, src))
+	e.assume("true", fmt.Sprintf("(forall ((q.p Int) (q.q Int)) (! (=> (and (<= %s q.p) (< q.p q.q) (< q.q %s) (= %s 0)) (< (select %s q.p) (select %s q.q))) :pattern ((select %s q.p) (select %s q.q))))", lo, hi, app("(select "+na+" q.p)", "(select "+na+" q.q)"), src, src, src, src))
+	st.heapA[srt] = e.define("ha", e.heapASort(srt), fmt.Sprintf("(store %s (s.arr %s) %s)", h, xs, na))
+	e.sortSrc = src
+	return Val{T: rt}
 }
